@@ -20,8 +20,8 @@
            [model_agrees]: the header is the one Model/RangeCodec.v writes for (o0, o1) and
            the answer is the one server_blob_get computes.
            [obs_ok]: a 206 answer to the client's header for (o0, o1) carries exactly bytes
-           [o0, o1') of the blob, a Content-Range total equal to the blob's length, and a
-           Content-Length equal to the body's. *)
+           [o0, o1') of the blob, a Content-Range "bytes o0-(o1'-1)/len" and a Content-Length
+           equal to the body's length. *)
 From Coq Require Import String.
 From OCI Require Export Obs.MemObs Model.IntegrityStack.
 From OCI Require Import Model.RangeCodec Proofs.RangeCodec Proofs.Integrity Proofs.BlobReader Proofs.IntegrityStack.
@@ -195,6 +195,9 @@ Definition obs_ok (c : case) : bool :=
                | Some t => match parse_int t with Some n => n =? blen data | None => false end
                | None => false
                end
+            (* "bytes first-last/total" names the slice: first = o0, last = o1' - 1 *)
+            && beqb (rs_crange r)
+                    (s "bytes " ++ fmt_int o0 ++ 45%N :: fmt_int (e - 1) ++ 47%N :: fmt_int (blen data))
           else true
       | _, _, _ => true
       end
@@ -355,7 +358,9 @@ Proof.
     && match after_last 47%N (rs_crange r) with
        | Some t => match parse_int t with Some n => n =? blen data | None => false end
        | None => false
-       end = true).
+       end
+    && beqb (rs_crange r)
+            (s "bytes " ++ fmt_int o0 ++ 45%N :: fmt_int (clamp (blen data) o1 - 1) ++ 47%N :: fmt_int (blen data)) = true).
   { intros e He Hcl. unfold range_of_blob. fold (clamp (blen data) e). rewrite Hcl.
     set (c := clamp (blen data) o1) in *.
     assert (Hc : c <= blen data) by (unfold c, clamp; destruct ((o1 <? 0) || (o1 >? blen data)) eqn:E; [lia|];
@@ -373,9 +378,14 @@ Proof.
     match goal with Hc1 : (c - o0 =? rs_clen r) = true |- _ => apply Z.eqb_eq in Hc1; rewrite <- Hc1 end.
     match goal with Hc2 : beqb (content_range_header _ _ _) (rs_crange r) = true |- _ => apply beqb_eq in Hc2; rewrite <- Hc2 end.
     rewrite content_range_total, parse_int_fmt_int_gen.
-    assert (in_int64 (blen data) = true) as -> by (rewrite <- Hs; exact Hs64).
+    assert (in_int64 (blen data) = true) as E64 by (rewrite <- Hs; exact Hs64). rewrite E64.
+    assert (Ecr : content_range_header o0 c (blen data)
+                  = s "bytes " ++ fmt_int o0 ++ 45%N :: fmt_int (c - 1) ++ 47%N :: fmt_int (blen data)).
+    { unfold content_range_header. rewrite wrap64_id; [reflexivity|].
+      apply in_int64_iff in E64. unfold MIN64 in *. lia. }
+    rewrite Ecr.
     change (firstn (Z.to_nat (c - o0)) (skipn (Z.to_nat o0) data)) with (slice data o0 c). rewrite blen_slice by lia.
-    rewrite beqb_refl, !Z.eqb_refl. destruct (Z.leb_spec 0 o0), (Z.leb_spec o0 c); try lia; reflexivity. }
+    rewrite !beqb_refl, !Z.eqb_refl. destruct (Z.leb_spec 0 o0), (Z.leb_spec o0 c); try lia; reflexivity. }
   destruct (Z.ltb_spec o1 0) as [H1n|H1p].
   - apply (Hcase (-1)); [now left | | exact Hr]. unfold clamp. cbn. destruct (Z.ltb_spec o1 0); [reflexivity | lia].
   - destruct (o1 <=? o0); [discriminate|]. apply (Hcase o1); [now right | reflexivity | exact Hr].
